@@ -212,7 +212,7 @@ func streamOrder(c *ctx) {
 			// the whole range a controller date-time can hold (years up to 9999), the instant at which a count of
 			// nanoseconds since 1970 no longer fits 63 bits (2262-04-11 23:47:16 UTC) in particular; the two instants
 			// need not be close
-			base = rng.Pick(r, int64(9223372036), int64(9223372037), int64(253402300799), int64(r.Intn(253402300)) * 1000, int64(4102444800)+int64(r.Intn(1<<31))*100) * 1000
+			base = rng.Pick(r, int64(9223372036), int64(9223372037), int64(253402300799), int64(r.Intn(253402300))*1000, int64(4102444800)+int64(r.Intn(1<<31))*100) * 1000
 			a = base + int64(r.Intn(3000)) - 1000
 			b = rng.Pick(r, base+int64(r.Intn(3000))-1000, int64(r.Intn(4102444800))*1000, base+86400000, int64(253402300799000))
 			if r.Bool() {
